@@ -202,7 +202,10 @@ def run_case(ctx, name, params):
     from artap.individual import Individual
     from artap.datastore import SqliteDataStore
     r = ctx.rng(name, params["seed"])
-    path = os.path.join(core.scratch_dir(), "c10-%d-%d.sqlite" % (os.getpid(), params["seed"] % 10 ** 9))
+    # file names with blanks and with characters that mean something in URIs, globs and SQL are ordinary names here
+    pat_ = ["c10-%d-%d.sqlite", "c10-%d-%d.sqlite", "run#3-%d-%d.sqlite", "yield%%95 [a]+-%d-%d.sqlite", "q?mode=ro&x=1-%d-%d.sqlite",
+            "it's-%d-%d.db"][params["seed"] % 6]
+    path = os.path.join(core.scratch_dir(), pat_ % (os.getpid(), params["seed"] % 10 ** 9))
     if os.path.exists(path):
         os.unlink(path)
     try:
